@@ -152,12 +152,20 @@ pub fn run_impl(bytes: &[u8]) -> (String, Option<String>) {
     }
 }
 
+/// Replay entry: answer one request line of this module (`None`: not this module's command).
+pub fn run_request(cmd: &str, args: &[&str]) -> Option<String> {
+    match (cmd, args) {
+        ("trg", [h]) => crate::unhex(h).map(|b| run_impl(&b).0),
+        _ => None,
+    }
+}
+
 fn add(s: &mut Session, gen: &'static str, bytes: &[u8]) {
     let (imp, why) = run_impl(bytes);
     s.push_oracle(gen, format!("trg {}", hex(bytes)), imp, why);
 }
 
-pub fn generate(s: &mut Session, thorough: bool) {
+pub fn generate(s: &mut Session, thorough: bool) -> bool {
     let mut rng = Rng::new(s.seed);
     let scale = if thorough { 40 } else { 1 };
     // (i) valid packets from the type-directed builder
@@ -239,4 +247,5 @@ pub fn generate(s: &mut Session, thorough: bool) {
         }
         add(s, "random", &b);
     }
+    true
 }
